@@ -24,8 +24,15 @@ class Gen:
         hdrs = []
         for i in range(nh):
             inc = [h for h in hdrs if r.random() < 0.3]
-            sc["sources"]["h%d.h" % i] = "".join("#include %s\n" % h for h in inc) + "// header %d\n" % i
-            hdrs.append("h%d.h" % i)
+            name = "h%d.h" % i
+            if hdrs and r.random() < 0.4:
+                # names of which one is the beginning of another (config.h / config.h.in, foo.h / foo.hpp), the longer one read -
+                # and so reported - first whenever it includes the shorter one
+                name = "%s_%d.h" % (r.choice(hdrs), i)
+                if r.random() < 0.6 and name[:name.rindex("_")] not in inc:
+                    inc.append(name[:name.rindex("_")])
+            sc["sources"][name] = "".join("#include %s\n" % h for h in inc) + "// header %d\n" % i
+            hdrs.append(name)
         if self.p("pools"):
             sc["pools"]["p1"] = r.randint(1, 2)
             if r.random() < 0.4:
@@ -217,6 +224,15 @@ class Gen:
         sc["sources"][scan_cfg] = "// scanner configuration\n"
         scan = St(scan_id, [dd], ins=["%s%d.src" % (tag, i) for i in range(nserved)] + [scan_cfg], kind="scan",
                   serves=[[s["outs"][0], s["ins"][0]] for s in served])
+        if not static:
+            # where the scanner's statement names the dyndep file: its only output, a further output, or an implicit output
+            # behind a stamp file ('build scan.stamp | x.dd: scan ...')
+            x = r.random()
+            stamp = dd[:-3] + ".stamp"
+            if x < 0.25:
+                scan["outs"], scan["iouts"] = [stamp], [dd]
+            elif x < 0.4:
+                scan["outs"] = [stamp, dd]
         if static:
             text = dyndep_text(scan, sc["sources"])
             if respell and r.random() < 0.5:
